@@ -297,7 +297,7 @@ func runC02(r *hk.Run) {
 	os.RemoveAll(outDir)
 
 	crossOracle(r, g.xs)
-	big := 0
+	bigN := map[string]int{}
 	for _, x := range g.xs {
 		x.oracle(r)
 		r.Count("proto:" + x.Proto)
@@ -319,17 +319,27 @@ func runC02(r *hk.Run) {
 		nontrivial := len(x.expectedBody()) > 0 || len(x.A.Fields) >= 3 || len(x.A.Trailers) > 0 || len(x.A.Interim) > 0
 		c := hk.Case{Desc: x.desc()}
 		emit := !x.s.Hung && x.s.Panic == ""
-		if len(x.wire) > 20000 {
-			big++
-			if big > r.Scale(60, 300) {
-				emit = false
+		if len(x.wire) > 20000 || len(x.A.Body) > 20000 {
+			bigN[x.Proto]++
+			if bigN[x.Proto] > r.Scale(36, 150) {
+				emit = false // the Go oracle still decides these; the model is evaluated on a bounded number of large bodies
 			}
 		}
 		if len(x.SegK) > 5 && x.SegK[:5] == "split" && len(x.segs) == 1 && x.segs[0]%6 != 1 {
 			emit = false // same wire bytes: the model's answer is the same
 		}
-		if emit && x.Proto == "h1" {
-			c.Coq = x.coqH1()
+		if len(x.A.Body) > 140000 {
+			emit = false
+		}
+		if emit {
+			switch x.Proto {
+			case "h1":
+				c.Coq = x.coqH1()
+			case "h2":
+				c.Coq = x.coqH2()
+			case "h3":
+				c.Coq = x.coqH3()
+			}
 		}
 		r.Add(c, x.key(), nontrivial)
 	}
